@@ -9,14 +9,16 @@ variables in exact-size blocks with EVERY index assignment and compare value, AL
 variables — the sequence of reallocations is an observable the value-level models do not have."""
 from genlib import *
 
-LEAN_MODULES = ["MpirProofs.Props.C05_div"]
+LEAN_MODULES = ["MpirProofs.Props.C05_div", "MpirProofs.Props.C05_mpz"]
 THEOREMS = ["Mpir.AliasMem.ofInts_ok",
             "Mpir.AliasMem.tdiv_qr_ptr_spec", "Mpir.AliasMem.tdiv_qr_alias", "Mpir.AliasMem.tdiv_q_ptr_spec", "Mpir.AliasMem.tdiv_r_ptr_spec",
             "Mpir.AliasMem.cfdiv_qr_ptr_spec", "Mpir.AliasMem.cfdiv_qr_alias", "Mpir.AliasMem.cfdiv_q_ptr_spec", "Mpir.AliasMem.cfdiv_r_ptr_spec",
-            "Mpir.AliasMem.mod_ptr_spec", "Mpir.AliasMem.divexact_ptr_spec", "Mpir.AliasMem.div3_alias"]
+            "Mpir.AliasMem.mod_ptr_spec", "Mpir.AliasMem.divexact_ptr_spec", "Mpir.AliasMem.div3_alias",
+            "Mpir.AliasMem.mul_2exp_ptr_spec", "Mpir.AliasMem.tdiv_q_2exp_ptr_spec"]
 PINS = [("mpz/tdiv_qr.c", None), ("mpz/tdiv_q.c", None), ("mpz/tdiv_r.c", None),
         ("mpz/fdiv_qr.c", None), ("mpz/cdiv_qr.c", None), ("mpz/fdiv_q.c", None), ("mpz/cdiv_q.c", None),
         ("mpz/fdiv_r.c", None), ("mpz/cdiv_r.c", None), ("mpz/mod.c", None), ("mpz/divexact.c", None),
+        ("mpz/mul_2exp.c", None), ("mpz/tdiv_q_2exp.c", None),
         ("mpz/realloc.c", None), ("gmp-impl.h", "MPZ_REALLOC"), ("gmp-impl.h", "MPZ_TMP_INIT"),
         ("mpz/set.c", None), ("mpz/aors.h", None), ("mpz/aors_ui.h", None)]
 TRUSTED = ["hand-written pointer-level model lean/Mpir/Model/AliasMem.lean (tied by the ops alias_* on every index assignment: values, ALLOC and "
@@ -96,3 +98,13 @@ def gen_ops(rng, tier, ctx=None):
                         if rng.random() < 0.2: k = rng.choice([1, -1, (1 << 64) - 1, 1 << 64, 1 << 63])     # quotient top limb zero / non-zero
                         v[n] = v[d] * k
                     yield "alias_divexact %x %x %x 0 %s" % (w, n, d, " ".join(hx(x) for x in v))
+    # in-place shifts: every (w, u), bit counts around limb boundaries, carry limb / no carry limb, top limb zero after the right shift
+    for fn in ("mul_2exp", "tdiv_q_2exp"):
+        for w in range(4):
+            for u in range(4):
+                for _ in range(reps * 6):
+                    v = _values(rng, big)
+                    if rng.random() < 0.5: v[u] = rng.choice([1, -1]) * _mag(rng, rng.choice([1, 2, 3, big]))
+                    if rng.random() < 0.15: v[u] = rng.choice([1, -1]) * ((1 << (64 * rng.choice([1, 2, 3]))) - 1)
+                    cnt = rng.choice([0, 1, 63, 64, 65, 127, 128, 129, 191, 192, rng.randrange(0, 64 * (big + 3))])
+                    yield "alias_%s %x %x %x %s" % (fn, w, u, cnt, " ".join(hx(x) for x in v))
